@@ -329,7 +329,16 @@ impl Database {
 
         if dirty_regions.is_empty() {
             debug!("{}: flush (no dirty)", self);
-            self.layout_mut().promote_pending_holes(self.name());
+            let mut layout = self.layout_mut();
+            if layout.has_pending_holes() {
+                // A removed region zeroes its metadata slot without marking anything dirty.
+                // That must be durable before its extent becomes reusable.
+                let regions = self.regions();
+                regions.flush()?;
+                self.file().sync_data()?;
+                regions.sync_data()?;
+            }
+            layout.promote_pending_holes(self.name());
             return Ok(0);
         }
 
